@@ -223,6 +223,43 @@ fn decode(code: usize, len: usize) -> Vec<Act> {
         .collect()
 }
 
+/// Ties far from zero: one queue walks over `count` consecutive bucket boundaries b = K*t beyond
+/// 2^24 s of simulated time; at each, events are added at b+1ns, b, b+1ns, b+t/2, b+1ns (in this
+/// order) and must come back as b, then the three at b+1ns in scheduling order, then b+t/2.
+fn far_ties(n: usize, t_ns: u64, count: u64) -> Result<u64, String> {
+    use des_cqueue::CQueue;
+    use std::time::Duration;
+    let dur = |ns: u128| Duration::new((ns / 1_000_000_000) as u64, (ns % 1_000_000_000) as u32);
+    quiet_catch(move || -> Result<u64, String> {
+        let mut q: CQueue<u32> = CQueue::new(n, Duration::from_nanos(t_ns));
+        let t = u128::from(t_ns);
+        let first = ((1u128 << 24) * 1_000_000_000).div_ceil(t) + 1;
+        let mut id = 0u32;
+        for k in first..first + u128::from(count) {
+            let b = k * t;
+            for x in [b + 1, b, b + 1, b + t / 2, b + 1] {
+                q.add(dur(x), id);
+                id += 1;
+            }
+            let i0 = id - 5;
+            for (eid, et) in [(i0 + 1, b), (i0, b + 1), (i0 + 2, b + 1), (i0 + 4, b + 1), (i0 + 3, b + t / 2)] {
+                if q.is_empty() {
+                    return Err(format!("(n={n}, t={t_ns}ns) boundary {k}: queue empty although event {eid} is pending"));
+                }
+                let (gid, gt) = q.fetch_next();
+                if gid != eid || gt.as_nanos() != et {
+                    return Err(format!(
+                        "(n={n}, t={t_ns}ns) around bucket boundary {k}*t = {b}ns: fetched event {gid} at {}ns, time order and the scheduling-order rule say event {eid} at {et}ns",
+                        gt.as_nanos()
+                    ));
+                }
+            }
+        }
+        Ok(u64::from(id))
+    })
+    .map_err(|m| format!("panicked: {m}"))?
+}
+
 impl Property for C03 {
     fn id(&self) -> &'static str {
         "C03"
@@ -230,7 +267,8 @@ impl Property for C03 {
     fn rule(&self, tier: Tier) -> String {
         format!(
             "queue layer: the C01 explicit-state BFS with the tie oracle (fetch_next must return exactly the head of the reference list ordered by (time, scheduled-for-current-instant first, scheduling order)) on (n,t,depth) = {:?} (drain after every history; 3 configurations also to depth 5 / 6 without merging states), plus long bursts for one instant (k in {{1,2,63,64,65,66,129,200}} events scheduled for the current instant, before the first dispatch or behind an older event of that instant, with follow-ups scheduled while the burst drains) on 4 parameterisations; \
-             runtime layer: every event program of 1..={} events with delays from {:?} x start in {{0,5}}, each run on 5 queue parameterisations (logs must equal the rule and each other) and with 1 and 4 unrelated future events; \
+             queue layer, far from zero: on 4 configurations with bucket widths 0.1 s to 99.9 s one queue each walks over 2000 (thorough 40000) consecutive bucket boundaries beyond 2^24 s of simulated time with a three-way tie 1 ns after each boundary, scheduled around an event exactly on it and one half a bucket later; \
+            runtime layer: every event program of 1..={} events with delays from {:?} x start in {{0,5}}, each run on 5 queue parameterisations (logs must equal the rule and each other) and with 1 and 4 unrelated future events; \
              net layer: every sequence of 1..={} actions from {{send over two channel-less chains, send over a latency channel, send over a channel-less / a latency chain that leads back to the sender (so that sent and self-scheduled messages meet at one receiver in one instant), schedule_in(0), schedule_in(d)}} emitted by one handler, on 4 queue parameterisations, plus long bursts (16..70 events, thorough up to 300) of every periodic pattern of period 1..3 over six actions (three self-schedule delays, direct and latency sends); \
              distinct_nontrivial = distinct canonical queue states with pending events + programs/sequences containing at least one tie",
             queue_cfgs(tier),
@@ -246,7 +284,7 @@ impl Property for C03 {
         ]
     }
     fn required_features(&self, _tier: Tier) -> Vec<&'static str> {
-        vec!["fetch_with_tie", "add_at_current_time", "rt_program_with_tie", "rt_zero_delay_followup_tied_with_older_event", "net_sequence_with_same_instant_pair", "net_long_burst", "queue_long_burst_for_one_instant"]
+        vec!["fetch_with_tie", "add_at_current_time", "rt_program_with_tie", "rt_zero_delay_followup_tied_with_older_event", "net_sequence_with_same_instant_pair", "net_long_burst", "queue_long_burst_for_one_instant", "ties_beyond_2^24_seconds"]
     }
     fn crash_is_violation(&self) -> bool {
         true
@@ -259,6 +297,24 @@ impl Property for C03 {
         for (n, t) in [(1usize, 1u64), (2, 3), (4, 5)] {
             // without merging states (see C01)
             cqlab::bfs(ctx, n, t, ctx.tier.pick(5, 6), true, false, true, "queue-tie-order");
+        }
+        // queue layer, ties around bucket boundaries beyond 2^24 s of simulated time
+        let count = ctx.tier.pick(2000u64, 40_000);
+        for (i, (n, t)) in [(8usize, 99_900_000_000u64), (4, 1_100_000_000), (16, 100_000_000), (3, 4_900_000_000)].iter().enumerate() {
+            if !ctx.mine_key(i as u64) {
+                continue;
+            }
+            let case = json!({"layer": "far-ties", "n": n, "t_ns": t, "count": count});
+            ctx.begin(|| case.clone());
+            ctx.out.evaluations += 1;
+            ctx.hit("ties_beyond_2^24_seconds");
+            match far_ties(*n, *t, count) {
+                Ok(ev) => {
+                    ctx.out.transitions += 2 * ev;
+                    ctx.out.traces += 1;
+                }
+                Err(d) => ctx.violation("queue-tie-order", || case.clone(), d),
+            }
         }
         // queue layer, long bursts for one instant: k events scheduled for the current instant
         // (before the first dispatch, or behind an older event of that instant that sits in a
@@ -391,6 +447,9 @@ impl Property for C03 {
         }
     }
     fn replay(&self, case: &Value) -> Result<(), String> {
+        if case.get("layer").and_then(Value::as_str) == Some("far-ties") {
+            return far_ties(case["n"].as_u64().unwrap() as usize, case["t_ns"].as_u64().unwrap(), case["count"].as_u64().unwrap()).map(|_| ());
+        }
         if case.get("layer").and_then(Value::as_str) == Some("net-burst") {
             let pat: Vec<usize> = case["pattern"].as_array().unwrap().iter().map(|x| x.as_u64().unwrap() as usize).collect();
             return check_net(&burst(&pat, case["len"].as_u64().unwrap() as usize)).map(|_| ());
